@@ -3,7 +3,7 @@ REG = dict(
     engine='E1-enum',
     technique='exhaustive enumeration of test files (every sequence of <=3 tests over 7 test kinds) x every name filter x one- and two-file invocations, run through the real `garden test` and compared with the single-test runs',
     text="Every sequence of 1..3 tests over 7 kinds (pass; assertion failure; exception three frames deep; exception inside nested blocks with locals; test defining locals that shadow a global function and a name another test reads; test calling the global function another test shadows; test reading a variable only another test defines) is written to a file and run with no filter, the empty filter, every substring of every test name (names are chosen so that these are exactly 6 strings selecting every 1- and 2-element subset) and a filter matching nothing (quick: 3-test files only unfiltered and one test at a time); two-file invocations split the same sequences over two files (1+1 in quick; 1+2 and 2+1 in thorough). Oracle, from the statement: exit status != 0 iff a selected test is reported failed; the summary line's total equals the number of tests whose name contains the filter and its passed/failed counts equal the reported verdicts; each test's verdict equals its verdict when run alone with `-n <its name>`.",
-    note='`garden test` prints only failed tests, so a passed verdict is "selected and not listed as failed". "No tests found." with exit 0 is accepted when nothing is selected. Tests hitting resource limits are not generated: `garden test` sets no limits.',
+    note='Interrupted tests: five files with an endless test are interrupted by a real SIGINT once the test is demonstrably running; the run must exit non-zero, list the interrupted test as failed and print consistent counts. `garden test` prints only failed tests, so a passed verdict is "selected and not listed as failed". "No tests found." with exit 0 is accepted when nothing is selected. Tests hitting resource limits are not generated: `garden test` sets no limits.',
     design_ref='DESIGN.md §6 C26',
 )
 LEVEL = "model_checking"
@@ -68,6 +68,68 @@ def parse(out):
         problems.append("no summary line")
         summary = None
     return failed, summary, problems
+
+
+SPIN = "println(\"spin started\")\n  while True {}"
+INT_FILES = {
+    "spin": [("t_spin", SPIN)],
+    "pass,spin": [("t_pass", KINDS["pass"][0]), ("t_spin", SPIN)],
+    "spin,pass": [("t_spin", SPIN), ("t_pass", KINDS["pass"][0])],
+    "fail,spin": [("t_fail", KINDS["assert-fail"][0]), ("t_spin", SPIN)],
+    "spin,fail": [("t_spin", SPIN), ("t_fail", KINDS["assert-fail"][0])],
+}
+
+
+def interrupted_family(ctx, root):
+    """Tests interrupted by Ctrl-C: SIGINT is sent once the endless test is demonstrably running (its first line of output has
+    arrived, so the handler is installed and the interpreter is in its loop). An interrupted test did not pass: the exit status
+    must be non-zero, the test must be listed as failed, and the summary must agree with the listed verdicts."""
+    import signal, subprocess, time
+    n = 0
+    for label, tests in INT_FILES.items():
+        path = os.path.join(root, f"int_{label.replace(',', '_')}.gdn")
+        with open(path, "w") as f:
+            f.write(HELPERS + "".join(f"test {nm} {{\n  {body}\n}}\n" for nm, body in tests))
+        p = subprocess.Popen([ctx.binary, "test", path], stdin=subprocess.DEVNULL, stdout=subprocess.PIPE, stderr=subprocess.PIPE)
+        os.set_blocking(p.stdout.fileno(), False)
+        out = b""
+        t0 = time.time()
+        while b"spin started" not in out and time.time() - t0 < 120 and p.poll() is None:
+            try:
+                chunk = p.stdout.read()
+            except BlockingIOError:
+                chunk = None
+            if chunk:
+                out += chunk
+            else:
+                time.sleep(0.02)
+        if b"spin started" not in out:
+            p.kill()
+            raise Machinery(f"interrupted family: the endless test of [{label}] never started ({out[-200:]!r})")
+        time.sleep(0.1)
+        p.send_signal(signal.SIGINT)
+        try:
+            p.wait(timeout=120)
+        except subprocess.TimeoutExpired:
+            p.kill()
+            ctx.violation(f"tests [{label}] interrupted by SIGINT: `garden test` does not stop", {"file": open(path).read()}, cli_cmd="garden test <file>, then Ctrl-C")
+            continue
+        os.set_blocking(p.stdout.fileno(), True)
+        out += p.stdout.read() or b""
+        text = out.decode("utf-8", "replace")
+        failed, summary, problems = parse(text)
+        n += 1
+        ctx.outcome("interrupted: exit " + str(p.returncode))
+        detail = {"file": open(path).read(), "stdout": text[-1500:], "exit": p.returncode}
+        if p.returncode == 0:
+            ctx.violation(f"tests [{label}] interrupted by SIGINT: exit status 0 although the interrupted test did not pass", detail, cli_cmd="garden test <file>, then Ctrl-C")
+        elif p.returncode < 0 or p.returncode == 101:
+            ctx.violation(f"tests [{label}] interrupted by SIGINT: `garden test` dies (rc {p.returncode})", detail)
+        elif "t_spin" not in failed:
+            ctx.violation(f"tests [{label}] interrupted by SIGINT: the interrupted test has no failed verdict", detail)
+        elif summary is not None and summary[2] != len(failed):
+            ctx.violation(f"tests [{label}] interrupted by SIGINT: summary counts differ from the listed verdicts", detail)
+    return n
 
 
 def run(ctx):
@@ -207,7 +269,8 @@ def run(ctx):
                                   dict(detail, alone_stdout=runs[nm]["out"][-400:]), cli_cmd=cmd)
     if n_ok_exit == 0 or n_fail_exit == 0:
         raise Machinery(f"vacuous: exit 0 x{n_ok_exit}, exit 1 x{n_fail_exit}")
-    ctx.add(states=len(layouts), transitions=len(jobs), nontrivial=sum(1 for l in layouts if sum(len(f) for f in l) > 1))
+    n_int = interrupted_family(ctx, root)
+    ctx.add(states=len(layouts) + n_int, transitions=len(jobs) + n_int, nontrivial=sum(1 for l in layouts if sum(len(f) for f in l) > 1) + n_int)
     ctx.bound("invocation_layouts", len(layouts))
     ctx.bound("garden_test_runs", len(jobs))
     for li in (0, len(layouts) // 2, len(layouts) - 1):
